@@ -74,8 +74,13 @@ def run(ctx):
         if b is None:
             continue
         ret = ExprBuilder(b).local(0)
+        sl = bodies.get("slice")
+        sret = ExprBuilder(sl).local(0) if sl is not None else None
         if ret[0] == "call" and ret[1] == IMPLS["slice"] and len(ret[2]) == 2 and show(ret[2][0]) in ("self",) and show(ret[2][1]) == "condition":
             ctx.ok("C17-R1", "%s delegates to <&[S]>::to_labels(self as slice, condition)" % IMPLS[k], b.loc())
+        elif sret is not None and ret[0] == "call" and ret[1] == LFS and sret[0] == "call" and sret[1] == LFS and len(ret[2]) == 3 \
+                and [show(a) for a in ret[2][:2]] == [show(a) for a in sret[2][:2]] and show(ret[2][2]) == "self" and show(sret[2][2]) == "self":
+            ctx.ok("C17-R1", "%s makes the same call as <&[S]>::to_labels: load_from_strings(same rate, same period, self as slice)" % IMPLS[k], b.loc())
         else:
             ctx.fail("C17-R1", b.path, "delegation", "returns %s, expected <&[S] as ToLabels>::to_labels(self.as_slice(), condition)" % show(ret), b.loc())
     b = bodies.get("slice")
@@ -144,7 +149,31 @@ def run(ctx):
         if any(g[0] == "true" and show(g[1]).endswith("condition.phoneme_alignment_flag") for g in gs):
             ctx.ok("C17-R2", "%s: labels.times() is read only on the alignment-flag-true edge" % bd.path, cm.loc_of(t["span"]))
         else:
-            ctx.fail("C17-R2", bd.path, "times() without flag", "time stamps are read although alignment may be off", cm.loc_of(t["span"]))
+            # the accessor only hands out a reference: what matters is where that reference is
+            # *used*.  Follow the result through plain moves; every consumer must sit on the
+            # flag-true edge (`let t = labels.times(); if flag { fit(t) } else { .. }`)
+            work, seen_l, consumers = [t["dest"]["local"]], set(), []
+            while work:
+                l_ = work.pop()
+                if l_ in seen_l:
+                    continue
+                seen_l.add(l_)
+                for ubb, ui, item in bd.uses(l_):
+                    if ui != "term" and item.get("k") == "assign" and item["rv"]["k"] in ("use", "ref", "copyforderef", "cast") and not item["place"]["proj"]:
+                        work.append(item["place"]["local"])
+                    else:
+                        consumers.append((ubb, ui, item))
+            okc = bool(consumers)
+            for ubb, ui, item in consumers:
+                if ui == "term" and item.get("k") == "drop":
+                    continue
+                gsu = paths.guards(bd, ubb)
+                if not any(g[0] == "true" and show(g[1]).endswith("condition.phoneme_alignment_flag") for g in gsu):
+                    okc = False
+            if okc:
+                ctx.ok("C17-R2", "%s: the slice returned by labels.times() is consumed only on the alignment-flag-true edge" % bd.path, cm.loc_of(t["span"]))
+            else:
+                ctx.fail("C17-R2", bd.path, "times() without flag", "time stamps are read although alignment may be off", cm.loc_of(t["span"]))
     if lf is not None:
         tn = Taint(lf, tainted_args=[1, 2], program=p)
         # the labels vector and every value pushed into it
@@ -217,6 +246,16 @@ def run(ctx):
             nm = cm.callee_name(c)
             if nm.endswith("str>::parse") or nm == LNEW or nm == LFS or nm.endswith("ToLabels>::to_labels"):
                 dl = t["dest"]["local"]
+                # follow plain moves to the return slot (a helper that was inlined leaves one)
+                n_mv = 0
+                while dl != 0 and n_mv < 4:
+                    us_ = bd.uses(dl)
+                    mv = [it for ub_, ui_, it in us_ if ui_ != "term" and it.get("k") == "assign" and it["rv"]["k"] == "use" and it["rv"]["op"].get("k") == "move" and not it["place"]["proj"]]
+                    if len(us_) == 1 and len(mv) == 1:
+                        dl = mv[0]["place"]["local"]
+                        n_mv += 1
+                    else:
+                        break
                 if dl == 0:
                     ctx.ok("C17-R5", "%s: result of %s is returned to the caller" % (path, nm.split("::")[-1]), cm.loc_of(t["span"]))
                     continue
